@@ -64,3 +64,8 @@ check("C20", "other",
       "preferred-engine option; slice start/stop/step are unbounded symbolic integers and z3 decides that exactly the ill-formed "
       "regions raise ValueError/TypeError; rejection class, no return value and unchanged fingerprints are path assertions.",
       "bounded symbolic execution (symx+z3) of the real factory calls with symbolic slice arguments", "3/C20")
+check("C15", "other",
+      "Bounded symbolic verification: transfer/materialize chains across three engines are built by the real API under symx; z3 "
+      "decides content equality of the returned tree with direct evaluation for all leaf contents within the slot bound; engine "
+      "of the result, Materialization node counts, identity and preservation of locked nodes under every later factory call are "
+      "path assertions.", BSV, "3/C15")
